@@ -36,7 +36,7 @@ CACHE = f("p/kademlia", "(Entry).IsExpired", "(*bucket).len", "(*bucket).get", "
 SESSION = f("p/p2pke", "newMessage", "ParseMessage", "(Message).GetNonce", "(Message).HeaderBytes", "(Message).Body",
             "(*Session).canSend", "(*Session).canReceive", "(*Session).IsReady", "(*Session).checkExpired", "(*Session).writeHandshake",
             "(*Session).Handshake", "(*Session).Send", "(*Session).Deliver", "(*Session).readHandshake", "NewSession", "writeInitHello")
-READERS = f("p/p2pke", "verify", "verifyAuthClaim", "readInitHello", "readRespHello", "readInitDone", "readRespDone")
+READERS = f("p/p2pke", "verify", "verifyAuthClaim", "readInitHello", "readRespHello", "readInitDone", "readRespDone", "parseInitHello")
 CHANNEL = f("p/p2pke", "(*Channel).setCurrent", "(*Channel).setNext", "(*Channel).checkKey", "(*Channel).newInit", "(*Channel).newResp",
             "(*Channel).proposeNewSession", "(*Channel).onReadySession", "(*Channel).expireSessions", "(*Channel).Deliver$1",
             "(*Channel).getOrInit", "(*Channel).onRekey$1", "(*Channel).onHandshake$1", "(*Channel).Send$1", "(*Timer).Reset",
